@@ -115,6 +115,16 @@ Proof.
   apply ksound_oneof2; apply ksound_from_list; assumption.
 Qed.
 
+Lemma asound_alt : forall a b (Pa Pb : obj -> Prop),
+  asound a Pa -> asound b Pb -> asound (AAlt a b) (fun o => Pa o \/ Pb o).
+Proof.
+  intros a b Pa Pb Ha Hb k Hin. cbn [apply_acon] in Hin. unfold asound in Ha, Hb.
+  destruct (apply_acon a) as [|ka ra] eqn:Ea; [destruct Hin|].
+  destruct (apply_acon b) as [|kb rb] eqn:Eb; [destruct Hin|].
+  destruct Hin as [<-|[]].
+  apply ksound_oneof2; apply ksound_from_list; assumption.
+Qed.
+
 Lemma constrain_sound : forall a (P : obj -> Prop) o v,
   asound a P -> P o -> member o v = true -> member o (constrain v a) = true.
 Proof. intros a P o v Ha Hp Hm. unfold constrain. apply (apply_all_sound _ P o Ha Hp v Hm). Qed.
